@@ -14,7 +14,7 @@
 (*                                                                                                            *)
 (* Clauses:  BudgetClosedEachStep (C09 at every sweep step), EachStepDesignedForItsPower,                      *)
 (*           ResultIsFunctionOfPower (hence the order of the sweep is irrelevant), ZeroStepIsTheNominalDesign, *)
-(*           SingleStepKeepsTheDesign, GainModeHasNoSweep, PowersReported.                                     *)
+(*           SingleStepKeepsTheDesign, GainModeHasNoSweep, PowersReported, SweepTouchesOnlyThePathAmplifiers.  *)
 EXTENDS GnpyBase, TLC
 
 CONSTANTS Lines,        \* set of lines: sequences of span losses
@@ -43,21 +43,23 @@ VARIABLES line, mode, range,
           pref,          \* reference offset of the current step
           set,           \* amplifier settings in force
           designedFor,   \* ghost: the reference offset the settings in force were designed for
-          results        \* one record per step: [dp, set, out]
-vars == <<line, mode, range, pc, k, pref, set, designedFor, results>>
+          results,       \* one record per step: [dp, set, out]
+          outside        \* version of every setting that is not an amplifier of the path (other directions, other degrees
+                         \* of the crossed ROADMs, the ROADM targets themselves): the first design writes it, a sweep must not
+vars == <<line, mode, range, pc, k, pref, set, designedFor, results, outside>>
 
 \* transmission_simulation: "power cannot be changed in gain mode" -> the range collapses to <<0>>
 EffRange == IF mode THEN range ELSE <<0>>
 
 Init == /\ line \in Lines /\ mode \in Modes /\ range \in Ranges
-        /\ pc = "loaded" /\ k = 0 /\ pref = 0 /\ set = <<>> /\ designedFor = NONE /\ results = <<>>
+        /\ pc = "loaded" /\ k = 0 /\ pref = 0 /\ set = <<>> /\ designedFor = NONE /\ results = <<>> /\ outside = 0
 
 Design == /\ pc = "loaded"
-          /\ set' = DesignAt(line, 0) /\ designedFor' = 0 /\ pc' = "designed"
+          /\ set' = DesignAt(line, 0) /\ designedFor' = 0 /\ pc' = "designed" /\ outside' = 1
           /\ UNCHANGED <<line, mode, range, k, pref, results>>
 
 StartSweep == /\ pc = "designed" /\ k' = 1 /\ pc' = "step"
-              /\ UNCHANGED <<line, mode, range, pref, set, designedFor, results>>
+              /\ UNCHANGED <<line, mode, range, pref, set, designedFor, results, outside>>
 
 \* "redesign is mandatory for each power, but no need to redesign if there is no power sweep"
 Redesign == /\ pc = "step"
@@ -66,16 +68,16 @@ Redesign == /\ pc = "step"
                THEN set' = DesignAt(line, EffRange[k]) /\ designedFor' = EffRange[k]
                ELSE UNCHANGED <<set, designedFor>>
             /\ pc' = "redesigned"
-            /\ UNCHANGED <<line, mode, range, k, results>>
+            /\ UNCHANGED <<line, mode, range, k, results, outside>>
 
 Propagate == /\ pc = "redesigned"
              /\ results' = Append(results, [dp |-> pref, set |-> set, out |-> Outputs(line, set)])
              /\ pc' = "propagated"
-             /\ UNCHANGED <<line, mode, range, k, pref, set, designedFor>>
+             /\ UNCHANGED <<line, mode, range, k, pref, set, designedFor, outside>>
 
 NextStep == /\ pc = "propagated"
             /\ IF k < Len(EffRange) THEN k' = k + 1 /\ pc' = "step" ELSE k' = k /\ pc' = "done"
-            /\ UNCHANGED <<line, mode, range, pref, set, designedFor, results>>
+            /\ UNCHANGED <<line, mode, range, pref, set, designedFor, results, outside>>
 
 Next == Design \/ StartSweep \/ Redesign \/ Propagate \/ NextStep
 Spec == Init /\ [][Next]_vars
@@ -99,5 +101,6 @@ GainModeHasNoSweep == (~mode /\ pc = "done") => Len(results) = 1 /\ results[1].d
 PowersReported == pc = "done" => [i \in 1..Len(results) |-> results[i].dp] = EffRange
 NeverAboveMaximum == \A i \in 1..Len(results) : \A a \in 1..Len(results[i].set) :
                         Sweeping => results[i].dp + results[i].set[a].dp <= PMaxOff
+SweepTouchesOnlyThePathAmplifiers == [][pc # "loaded" => outside' = outside]_vars
 TypeOK == pc \in {"loaded", "designed", "step", "redesigned", "propagated", "done"} /\ k \in 0..Len(EffRange)
 ==============================================================================
